@@ -25,7 +25,7 @@ from gverif.harness import Run
 from gverif.props.c04_render import MOD_FILE, SCOPES
 
 ALL_RELAX = ["nested", "method", "shortcut", "mparam", "decl", "eloc"]
-ENV_KEYS = ["fam", "M", "n", "up1", "up2", "modb", "ab", "bb", "fnb", "inh", "st"]
+ENV_KEYS = ["fam", "M", "n", "up1", "up2", "modb", "ab", "bb", "fnb", "inh", "stub", "st"]
 PLAIN_FORMS = ["ann", "val", "base", "dec", "par_ann", "par_def", "ret", "api"]
 EXPECTED_BINDERS = {"fn-param", "fn-local", "own-class", "own-class-decl", "enclosing-class", "module", "submodule", "parent-shortcut", "none"}
 NWORKERS = max(2, min(14, (os.cpu_count() or 4) - 2))
